@@ -86,7 +86,9 @@ def check(rep, tier, seed):
             else:
                 hx = enc_part.split(" ")[1] if enc_part.startswith("ok ") else ""
                 lead = (b"\x00" + vu(cidx)).hex()
-                if not hx.startswith(lead):
+                if enc_part == "err UnsupportedCharacter" and sx.contains_unencodable_char(("named", i), sx.parse(c["val"]), env):
+                    pass        # a char beyond the 16-bit range inside the value: the documented error
+                elif not hx.startswith(lead):
                     why = f"encoding does not start with 00 ++ var_u32({cidx})"
                 else:
                     ok, w2 = R.judge_static_rt(env)(c, a)
@@ -96,7 +98,9 @@ def check(rep, tier, seed):
             _, wi, ri, j = e
             wd_, rd_ = env[wi], env[ri]
             enc_part, _, dec_part = a.partition(" ; ")
-            if not enc_part.startswith("ok "):
+            if enc_part == "err UnsupportedCharacter" and sx.contains_unencodable_char(("named", wi), sx.parse(c["val"]), env):
+                pass
+            elif not enc_part.startswith("ok "):
                 why = "encode failed"
             else:
                 name = wd_["variants"][j]["name"]
